@@ -420,9 +420,9 @@ func (l Linter) Lint(ctx context.Context) (report.Report, error) {
 	}
 
 	// aggregate rules may report on the absence of aggregated data (e.g. no-defined-entrypoint), so
-	// the aggregate report must run whenever more than one file was linted, not only when some
-	// enabled rule happened to contribute aggregates
-	if len(allAggregates) > 0 || (len(l.overriddenAggregates) == 0 && len(input.FileNames) > 1) {
+	// the aggregate report must run whenever more than one file was linted, or aggregates collected
+	// from previous runs were provided, not only when some enabled rule happened to contribute aggregates
+	if len(allAggregates) > 0 || l.overriddenAggregates != nil || len(input.FileNames) > 1 {
 		// directives of files linted in this run take precedence over those provided from previous runs
 		ignoreDirectives := make(map[string]map[string][]string, len(l.ignoreDirectives)+len(regoReport.IgnoreDirectives))
 		maps.Copy(ignoreDirectives, l.ignoreDirectives)
@@ -470,7 +470,9 @@ func (l Linter) Lint(ctx context.Context) (report.Report, error) {
 }
 
 func (l Linter) validate() error {
-	if len(l.inputPaths) == 0 && l.inputModules == nil && len(l.overriddenAggregates) == 0 {
+	// a provided, but empty, map of aggregates is a valid input: the files it was collected
+	// from contributed no aggregate data, which is what some aggregate rules report on
+	if len(l.inputPaths) == 0 && l.inputModules == nil && l.overriddenAggregates == nil {
 		return errors.New("nothing provided to lint")
 	}
 
